@@ -25,14 +25,16 @@ struct listEl_st; struct listImpl_st;
 
 static int appendElement(KSI_List *list, void *obj)
 __CPROVER_requires(list != NULL && LIST_INV(list))
+/* the harness recorded the elements at the witness indices */
+__CPROVER_requires(IMPLIES(g_lw < L_LEN(list), g_lold_w == L_EL(list, g_lw)) && IMPLIES(g_lv < L_LEN(list), g_lold_v == L_EL(list, g_lv)))
 /* result: OK, or out of memory exactly when the array had to grow and the allocation failed */
 __CPROVER_ensures(__CPROVER_return_value == KSI_OK || __CPROVER_return_value == KSI_OUT_OF_MEMORY)
 __CPROVER_ensures(IMPLIES(__CPROVER_return_value == KSI_OUT_OF_MEMORY, OLD_GROWS(list)))
 /* OK: one element more, the new one is last, every old element keeps its place */
 __CPROVER_ensures(IMPLIES(__CPROVER_return_value == KSI_OK,
 		LIST_INV(list) && L_LEN(list) == OLD_LEN(list) + 1 && L_EL(list, OLD_LEN(list)) == obj))
-__CPROVER_ensures(IMPLIES(__CPROVER_return_value == KSI_OK && g_lw < OLD_LEN(list), L_EL(list, g_lw) == __CPROVER_old(L_EL(list, g_lw < L_LEN(list) ? g_lw : 0))))
-__CPROVER_ensures(IMPLIES(__CPROVER_return_value == KSI_OK && g_lv < OLD_LEN(list), L_EL(list, g_lv) == __CPROVER_old(L_EL(list, g_lv < L_LEN(list) ? g_lv : 0))))
+__CPROVER_ensures(IMPLIES(__CPROVER_return_value == KSI_OK && g_lw < OLD_LEN(list), L_EL(list, g_lw) == g_lold_w))
+__CPROVER_ensures(IMPLIES(__CPROVER_return_value == KSI_OK && g_lv < OLD_LEN(list), L_EL(list, g_lv) == g_lold_v))
 /* growth: a new array of size + 10 slots, the old array released (frees clause: nothing else may be released) */
 __CPROVER_ensures(IMPLIES(__CPROVER_return_value == KSI_OK && OLD_GROWS(list),
 		L_SIZE(list) == OLD_SIZE(list) + 10 && __CPROVER_is_fresh(L_ARR(list), L_SIZE(list) * sizeof(struct listEl_st)) &&
@@ -42,7 +44,7 @@ __CPROVER_ensures(IMPLIES(__CPROVER_return_value == KSI_OK && !OLD_GROWS(list),
 /* failure: the list is exactly as before and still valid */
 __CPROVER_ensures(IMPLIES(__CPROVER_return_value != KSI_OK,
 		LIST_INV(list) && L_LEN(list) == OLD_LEN(list) && L_SIZE(list) == OLD_SIZE(list) && L_ARR(list) == OLD_ARR(list) &&
-		IMPLIES(g_lw < L_LEN(list), L_EL(list, g_lw) == __CPROVER_old(L_EL(list, g_lw < L_LEN(list) ? g_lw : 0)))))
+		IMPLIES(g_lw < L_LEN(list), L_EL(list, g_lw) == g_lold_w)))
 __CPROVER_ensures(list->pImpl == __CPROVER_old(list->pImpl))
 __CPROVER_assigns(L_IMPL(list)->arr, L_IMPL(list)->arr_size, L_IMPL(list)->arr_len;
 		L_ARR(list) != NULL && L_LEN(list) < L_SIZE(list): L_IMPL(list)->arr[L_LEN(list)].ptr)
